@@ -176,6 +176,7 @@ C15_ProposeTakes == Step /\ IsOk("propose") =>
   /\ IF d.kind = "none" THEN bal' = bal /\ DepositMsgs(out') = <<>>
      ELSE /\ bal[E.by] >= d.amt /\ bal' = Move(bal, E.by, "ms", d.amt)
           /\ IF d.kind = "native" THEN E.args.funds = d.amt /\ E.args.fdenom = "udep" /\ DepositMsgs(out') = <<>>
+                                        /\ ("extra" \in DOMAIN E.args => E.args.extra = 0)      \* exactly the deposit, nothing else attached
              ELSE DepositMsgs(out') = <<TakeMsg(E.by, d.amt)>>
 C15_RefundOnExecute == Step /\ IsOk("execute") =>
   /\ Has(Pid)
